@@ -1,0 +1,90 @@
+//go:build verif
+
+package statsd
+
+// Contracts for the deductive verifier in /verif (comment-only).
+
+//@ extern interface statsd.Statter
+
+//@ pred vbs(r *cactusStatsReporter, x float64) { x == math.MaxFloat64 ? "infinity" : (x == -math.MaxFloat64 ? "-infinity" : sprintf(r.bucketFmt, x)) }
+//@ pred dbs(d time.Duration) { d == math.MaxInt64 ? "infinity" : (d == math.MinInt64 ? "-infinity" : durationString(d)) }
+//@ pred one_more() { len(calls) == old(len(calls)) + 1 && (forall j int :: 0 <= j && j < old(len(calls)) ==> calls[j] == old(calls[j])) }
+
+//@ func NewReporter
+//@   property C18
+//@   allocs
+//@   ensures @type is(result, *cactusStatsReporter) && dyn(result, *cactusStatsReporter) != nil
+//@   ensures @statter same(dyn(result, *cactusStatsReporter).statter, statsd)
+//@   ensures @rate_default opts.SampleRate == 0.0 ==> dyn(result, *cactusStatsReporter).sampleRate == 1.0
+//@   ensures @rate_kept opts.SampleRate != 0.0 ==> same(dyn(result, *cactusStatsReporter).sampleRate, opts.SampleRate)
+//@   ensures @fmt_default opts.HistogramBucketNamePrecision == 0 ==> dyn(result, *cactusStatsReporter).bucketFmt == "%." + itoa(6) + "f"
+//@   ensures @fmt_given opts.HistogramBucketNamePrecision != 0 ==> dyn(result, *cactusStatsReporter).bucketFmt == "%." + itoa(wrap64(opts.HistogramBucketNamePrecision)) + "f"
+//@   ensures @no_calls len(calls) == old(len(calls))
+
+//@ func (*cactusStatsReporter).ReportCounter
+//@   property C18
+//@   emits
+//@   requires r != nil && r.statter != nil
+//@   ensures @one one_more()
+//@   ensures @call calls[old(len(calls))] == ev(statsd.Statter.Inc, r.statter, name, value, r.sampleRate, nilslice())
+
+//@ func (*cactusStatsReporter).ReportGauge
+//@   property C18
+//@   emits
+//@   requires r != nil && r.statter != nil
+//@   ensures @one one_more()
+//@   ensures @call calls[old(len(calls))] == ev(statsd.Statter.Gauge, r.statter, name, f2i(int64, value), r.sampleRate, nilslice())
+
+//@ func (*cactusStatsReporter).ReportTimer
+//@   property C18
+//@   emits
+//@   requires r != nil && r.statter != nil
+//@   ensures @one one_more()
+//@   ensures @call calls[old(len(calls))] == ev(statsd.Statter.TimingDuration, r.statter, name, interval, r.sampleRate, nilslice())
+
+//@ func (*cactusStatsReporter).valueBucketString
+//@   property C18
+//@   requires r != nil
+//@   ensures @pos_inf upperBound == math.MaxFloat64 ==> result == "infinity"
+//@   ensures @neg_inf upperBound == -math.MaxFloat64 ==> result == "-infinity"
+//@   ensures @other upperBound != math.MaxFloat64 && upperBound != -math.MaxFloat64 ==> result == sprintf(r.bucketFmt, upperBound)
+//@   ensures @no_calls len(calls) == old(len(calls))
+
+//@ func (*cactusStatsReporter).durationBucketString
+//@   property C18
+//@   requires r != nil
+//@   ensures @pos_inf upperBound == math.MaxInt64 ==> result == "infinity"
+//@   ensures @neg_inf upperBound == math.MinInt64 ==> result == "-infinity"
+//@   ensures @other upperBound != math.MaxInt64 && upperBound != math.MinInt64 ==> result == durationString(upperBound)
+//@   ensures @no_calls len(calls) == old(len(calls))
+
+//@ func (*cactusStatsReporter).ReportHistogramValueSamples
+//@   property C18
+//@   emits
+//@   requires r != nil && r.statter != nil
+//@   ensures @one one_more()
+//@   ensures @call calls[old(len(calls))] == ev(statsd.Statter.Inc, r.statter, sprintf("%s.%s-%s", name, vbs(r, bucketLowerBound), vbs(r, bucketUpperBound)), samples, r.sampleRate, nilslice())
+
+//@ func (*cactusStatsReporter).ReportHistogramDurationSamples
+//@   property C18
+//@   emits
+//@   requires r != nil && r.statter != nil
+//@   ensures @one one_more()
+//@   ensures @call calls[old(len(calls))] == ev(statsd.Statter.Inc, r.statter, sprintf("%s.%s-%s", name, dbs(bucketLowerBound), dbs(bucketUpperBound)), samples, r.sampleRate, nilslice())
+
+//@ func (*cactusStatsReporter).Capabilities
+//@   property C18
+//@   requires r != nil
+//@   ensures @self is(result, *cactusStatsReporter) && dyn(result, *cactusStatsReporter) == r
+
+//@ func (*cactusStatsReporter).Reporting
+//@   property C18
+//@   ensures @true result == true
+
+//@ func (*cactusStatsReporter).Tagging
+//@   property C18
+//@   ensures @false result == false
+
+//@ func (*cactusStatsReporter).Flush
+//@   property C18
+//@   ensures @no_calls len(calls) == old(len(calls))
